@@ -71,6 +71,17 @@ class EcdsaFamily:
                 for v in (0, 1, 26, 27, 28, 29, 35, 36):
                     if v in (27, 28) or (r in xs[:1] and s == 1):
                         yield dict(kind="recover", v=v, r=r, s=s, h=rng.choice(hashes).hex())
+        # every s >= 0 is in the quantifier: representatives s0 + k N beyond 256 bits, 2^256 itself, very wide scalars
+        for r in xs[:2]:
+            s0 = rng.randrange(1, N)
+            for s in (s0 + N, s0 + 2 * N, 2 ** 256, 2 ** 256 + s0, s0 + (2 ** 64) * N, 2 ** 300 + 1, (2 ** 512) * 3 + s0):
+                for v in (27, 28):
+                    yield dict(kind="recover", v=v, r=r, s=s, h=rng.choice(hashes).hex())
+        # small r below P - N (r + N is also a field element): must still be treated as x = r only
+        small = [x for x in range(1, 400) if lift(x, False) is None and lift(x + N, False) is not None][:3]
+        for r in small:
+            for v in (27, 28):
+                yield dict(kind="recover", v=v, r=r, s=1, h=rng.choice(hashes).hex())
         # both parities of one r in one process (history dependence), crafted z = -+ s k
         for _ in range(3):
             k = rng.randrange(1, N)
